@@ -522,7 +522,15 @@ func init() {
 			nf = 1500
 		}
 		genConcFind(r, emit, nf)
-	}, map[string]runner{"Hist": runHist, "Conc": runConc, "ConcRoots": runConcRoots, "Find": runFind})
+		// printing, formatting and searching from several goroutines at once (cases of C10, C08, C09 run in parallel)
+		np := 25
+		if tier == "thorough" {
+			np = 400
+		}
+		genPar(r, emit, "C10", 40, np)
+		genPar(r, emit, "C08", 100, np)
+		genPar(r, emit, "C09", 100, np)
+	}, map[string]runner{"Hist": runHist, "Conc": runConc, "ConcRoots": runConcRoots, "Find": runFind, "Par": runPar})
 	register("C06", func(tier string, r *Rng, emit func(Case)) {
 		n := 600
 		if tier == "thorough" {
